@@ -110,6 +110,7 @@ class Sim13:
         self.writes: list[dict] = []
         self.refused: list[dict] = []          # conditional PATCHes of the peering object answered 409
         self.fault_hits: list[dict] = []       # every request answered by an injected fault of the scenario (t, t_done, who, class, kind)
+        self.slow_hits: list[dict] = []        # every peering PATCH that a `slow_requests` rule of the scenario held up on its way to the server
         self._patch_class: str | None = None   # the class of the peering PATCH that is being issued right now (see `installed`)
         self._on_fault: Any = None             # set by `installed`: marks the process_peering_event call a fault hits
         self.toggle_set: dict[int, Any] = {}       # id(toggle) -> (toggle, set)
@@ -458,7 +459,7 @@ class Sim13:
         return {"t_end": t_end, "incs": incs, "toggles": snap(self.toggles), "pcalls": snap([{k: v for k, v in p.items() if not k.startswith("_")} for p in self.pcalls]),
                 "ka": snap(self.ka), "touches": snap(self.touches), "calls": snap(self.calls), "cycles": snap(self.cycles), "marks": snap(self.marks),
                 "peering_history": phist, "kex_history": khist, "requests": reqs, "guard_failures": snap(self.guard_failures), "writes": snap(self.writes), "refused": snap(self.refused),
-                "fault_hits": snap(self.fault_hits)}
+                "fault_hits": snap(self.fault_hits), "slow_hits": snap(self.slow_hits)}
 
 
 # =================================================================================================
@@ -515,8 +516,13 @@ def installed(sim: Sim13) -> Iterator[None]:
     current: dict[Any, dict] = {}      # task -> call record
     cfs: dict[Any, Any] = {}           # task -> the call's conflicts_found toggle
 
+    import contextvars
+    call_var: contextvars.ContextVar = contextvars.ContextVar("c13_call", default=None)
+
     def cur() -> dict | None:
-        return current.get(asyncio.current_task())
+        # the call the current task works for: its own, or - a task spawned inside a call (a shielded / detached request) inherits
+        # the context - the call it was spawned in
+        return current.get(asyncio.current_task()) or call_var.get()
 
     async def process_peering_event(**kw: Any) -> None:
         raw = kw["raw_event"]
@@ -532,6 +538,7 @@ def installed(sim: Sim13) -> Iterator[None]:
         task = asyncio.current_task()
         current[task] = rec
         cfs[task] = cf
+        tok = call_var.set(rec)
         try:
             await o_ppe(**kw)
             rec["finished"] = True
@@ -544,6 +551,7 @@ def installed(sim: Sim13) -> Iterator[None]:
         finally:
             current.pop(task, None)
             cfs.pop(task, None)
+            call_var.reset(tok)
             rec["t1"] = ticks(sim.now())
 
     # NB: what a call cleans / whether it touches is read off the REQUESTS it issues (`note_patch` below, at the API client), not
@@ -685,6 +693,54 @@ def installed(sim: Sim13) -> Iterator[None]:
 
     own_url = f"{sim.peer_path}/{sim.pname}"
 
+    # `slow_requests: [{"who": name, "cls": "keepalive"|"selftouch"|"clean"|"withdraw", "nth": n, "count": k, "delay": s,
+    #                   "then": ["stop"|"kill", dt]}]`: the n-th .. (n+k-1)-th peering PATCH of that class by that operator takes
+    # `delay` seconds longer to reach the server than any other request (ONE slow request: "every delivery timing of ...
+    # keep-alives" - requests of one client are applied in the order they ARRIVE, not in the order they were sent); a request
+    # that its client cancels on the way never arrives. `then`: the operator is asked to stop (killed) `dt` seconds after the
+    # slow request was sent - with dt < delay while it is in flight, with dt >= delay right after it has landed.
+    slow_rules = [dict(r, _n=0) for r in (sim.sc.get("slow_requests") or [])]
+
+    def slow_for(name: str, cls: str) -> float:
+        d = 0.0
+        for r in slow_rules:
+            if r.get("who") != name or r.get("cls") != cls:
+                continue
+            r["_n"] += 1
+            n0 = int(r.get("nth", 1))
+            if not (n0 <= r["_n"] < n0 + int(r.get("count", 1))):
+                continue
+            d += float(r["delay"])
+            hit = {"t": sim.now(), "inc": sim.inc(), "who": name, "cls": cls, "delay": float(r["delay"]), "in_call": cur() is not None,
+                   "then": r.get("then")}
+            sim.slow_hits.append(hit)
+            then = r.get("then")
+            if then and sim.inc() not in sim.dead:
+                fn = sim.stop_op if then[0] == "stop" else sim.kill_op
+                # (from a neutral context: the stopping task must not count as one of the operator's own tasks)
+                asyncio.get_running_loop().call_later(float(then[1]), fn, name, context=sim._base_ctx)
+        return d
+
+    slow_next = {"d": 0.0}
+
+    def slow_hook(req: dict) -> None:
+        # (called synchronously inside FakeSession.request, right before it sleeps `cluster.latency`: the raised latency is read by
+        #  that sleep in the same task step and restored before any other task runs)
+        d = slow_next["d"]
+        slow_next["d"] = 0.0
+        if d:
+            c = sim.cluster
+            saved = c.latency
+            c.latency = saved + d
+            req["slow"] = d
+
+            def restore() -> None:
+                c.latency = saved
+            asyncio.get_running_loop().call_soon(restore)
+
+    if slow_rules:
+        sim.cluster.before_request.append(slow_hook)
+
     pending_hits: dict[Any, list] = {}    # task -> the injected faults that hit its request in flight
 
     def on_fault(hit: dict) -> None:
@@ -747,6 +803,10 @@ def installed(sim: Sim13) -> Iterator[None]:
             d = extra.get(name, 0.0)
             if asyncio.current_task() in selftouching:
                 d += slow_self.get(name, 0.0)
+            if slow_rules:
+                # SENT at once (the request is logged, a closed / dead session refuses it now), ARRIVES later: the fake API's
+                # latency of this one request is longer (`slow_hook`); once sent, only its own client's cancellation takes it back
+                slow_next["d"] = slow_for(name, cls)
             if d:
                 await asyncio.sleep(d)
         return await o_request_as(cls, self, method, url, *a, **k)
